@@ -70,6 +70,8 @@ def keys_written(ctx, cls: ClassInfo, meth="get_state", _depth=0):
     out = {}
 
     def add_dict(e, guards):
+        from ..engine import deref
+        e = deref(f, e)
         if isinstance(e, ast.Dict):
             for k in e.keys:
                 kk = _key(ctx, f, k) if k is not None else None
